@@ -702,8 +702,16 @@ func (pr *printer) source() string {
 		b.WriteString("\tx.SetPoison(func() {\n" + pr.poison.String() + "\t})\n")
 	}
 	fmt.Fprintf(&b, "\trerr = cff.%s(%s,\n", directive, ctxExpr)
-	for _, o := range opts {
+	for i, o := range opts {
+		if p.LineDirs {
+			// what a preprocessor leaves behind: the following lines claim to come
+			// from another file, at line numbers that go down
+			fmt.Fprintf(&b, "//line %s.tmpl:%d\n", p.Name, 100000-1000*i)
+		}
 		b.WriteString(indent(indent(o + ",")))
+	}
+	if p.LineDirs {
+		fmt.Fprintf(&b, "//line p.go:%d\n", 100000)
 	}
 	b.WriteString("\t)\n")
 	b.WriteString(post.String())
